@@ -390,7 +390,8 @@ Facts(n, r, err) ==
       exempt(i) == LET a == Read(n, i) b == T.ents[i - r.s + 1] IN
                    i = 1 /\ a.i = 1 /\ a.y = "cfg" /\ b.y = "cfg"       \* checksumLog's bootstrap exception
       cpok == Has(st[n], r.e) /\ RecAt(st[n], r.e) = T.cp                  \* the checkpoint entry itself arrived intact
-      eq == same /\ held /\ cpok /\ \A i \in r.s..(r.e - 1) : Read(n, i) = T.ents[i - r.s + 1] \/ exempt(i)
+      eq == same /\ held /\ cpok /\ \A i \in r.s..(r.e - 1) :      \* stored as the leader wrote it and read back unchanged
+                 (RecAt(st[n], i) = T.ents[i - r.s + 1] /\ Read(n, i) = T.ents[i - r.s + 1]) \/ exempt(i)
       div == same /\ held /\ \E i \in r.s..(r.e - 1) : Read(n, i) # T.ents[i - r.s + 1] /\ ~exempt(i)
       wother == \/ ~hasT \/ ~T.ok
                 \/ \E w \in mw[n].wrote : \/ (w.i = T.e /\ w # T.cp)
